@@ -5091,9 +5091,12 @@ func (t *Terminal) Loop() error {
 
 	// If an action is bound to 'start', we're going to process it before reading
 	// user input.
+	// Neither are the actions sent to the server
+	var serverInputChan chan []*action
 	if !t.hasStartActions {
 		barrier <- true
 		needBarrier = false
+		serverInputChan = t.serverInputChan
 	}
 	// The coordinator posts load/result/zero/one events while it holds t.mutex.
 	// Once this loop is gone nobody reads them: keep the channel drained, or a
@@ -5128,6 +5131,9 @@ func (t *Terminal) Loop() error {
 			barrier <- true
 			needBarrier = false
 		}
+		if loopIndex > 0 {
+			serverInputChan = t.serverInputChan
+		}
 
 		var event tui.Event
 		actions := []*action{}
@@ -5151,7 +5157,7 @@ func (t *Terminal) Loop() error {
 					}
 				}
 			}
-		case serverActions := <-t.serverInputChan:
+		case serverActions := <-serverInputChan:
 			event = tui.Invalid.AsEvent()
 			if t.listenAddr == nil || t.listenAddr.IsLocal() || t.listenUnsafe {
 				actions = serverActions
